@@ -100,10 +100,8 @@ def main(tier):
                 k0 = s[1]
                 row = rows.get(name)
                 if not row:
-                    if nviol < 3:
-                        nviol += 1
-                        ck.violation("function %s (line %d) has no complexity row" % (name, k0),
-                                     {"kind": "missing-function", "file": m["path"], "source": m["lines"], "function": name})
+                    # whether every definition is reported is property C04; C03 speaks about the values that are reported
+                    stats["functions_without_row"] = stats.get("functions_without_row", 0) + 1
                     continue
                 row = row[0]
                 c = row["complexity"]
@@ -177,6 +175,8 @@ def main(tier):
                                                   "impl": c, "spec_mccabe_with_impl_dead_set": v, "impl_dead_statements": dead})
         except Exception as e:
             ck.broken_ties.append("recheck evaluation failed: " + str(e)[-500:])
+    if stats.get("functions_without_row", 0) > max(3, stats["functions"] // 2):
+        ck.broken_ties.append("%d generated functions have no complexity row: the complexity of most functions cannot be checked" % stats["functions_without_row"])
     ck.samples = [{"file": mods[0]["path"], "source_head": mods[0]["lines"][:30]}]
     ck.cov.update({
         "evaluations": stats["c03_functions"] + stats["risk_checks"],
